@@ -206,6 +206,11 @@ pub fn c08_scenario(ch: &mut Chooser, thorough: bool) -> Exec {
     let by_regex = ch.flag("hosts_named_by_regex");
     // regex variant: "B against every host" (overlapping sets) holds both A<->B and B<->C
     let wide = by_regex && !from_host && ch.flag("regex_set_is_b_against_all");
+    // host code that calls hold / release: the uninvolved host C (runs after A and B in a
+    // step) or the sender A itself (runs before the receiver B)
+    let issuer: usize = if from_host && ch.flag("host_code_control_issued_by_a_instead_of_c") { 0 } else { 2 };
+    // a second datagram A->B in every step: two messages of one direction fall due together
+    let double = ch.flag("two_datagrams_a_to_b_per_step");
     let mut net = build(1, LAT, 0.0, 1.0, false);
     let mut link = MLink::default(); // A <-> B
     let mut link_ac = MLink::default();
@@ -219,6 +224,8 @@ pub fn c08_scenario(ch: &mut Chooser, thorough: bool) -> Exec {
     // when control comes from host code the hold takes effect *during* the step, after
     // that step's network tick: messages maturing in that very step are don't-care
     let mut dontcare: Vec<u32> = vec![];
+    // ids whose arrival step is left open but which must arrive exactly once: (id, destination)
+    let mut anytime: Vec<(u32, usize)> = vec![];
     let total_steps = steps + 6;
 
     'run: for k in 0..total_steps {
@@ -240,7 +247,7 @@ pub fn c08_scenario(ch: &mut Chooser, thorough: bool) -> Exec {
         let hold_now = |net: &Net3, rel: bool| {
             if from_host {
                 let c = if rel { HostCmd::Release(0, 1) } else { HostCmd::Hold(0, 1) };
-                net.host_cmd(2, c); // issued by the uninvolved host C
+                net.host_cmd(issuer, c);
             } else if wide {
                 let allr = regex::Regex::new("^h[abc]$").unwrap();
                 if rel {
@@ -299,6 +306,12 @@ pub fn c08_scenario(ch: &mut Chooser, thorough: bool) -> Exec {
                 let at = if from_host { k + 1 } else { k };
                 for m in &mut link.q {
                     if m.stat == MStat::Held {
+                        // released by A's own code during A's turn: B, whose turn comes later
+                        // in the same step, may be handed its messages in this very step or
+                        // in the next (the property fixes order and exactly-once, not the step)
+                        if from_host && issuer == 0 && m.to != 0 {
+                            anytime.push((m.id, m.to));
+                        }
                         m.stat = MStat::At(at);
                     }
                 }
@@ -381,6 +394,11 @@ pub fn c08_scenario(ch: &mut Chooser, thorough: bool) -> Exec {
                 next_id += 1;
                 net.host_cmd(from, HostCmd::Send { to, id });
             }
+            if double {
+                let id = next_id;
+                next_id += 1;
+                net.host_cmd(0, HostCmd::Send { to: 1, id });
+            }
         }
         // reference: hand over what is due in step k, then register this step's sends
         for m in link.due(k) {
@@ -393,13 +411,20 @@ pub fn c08_scenario(ch: &mut Chooser, thorough: bool) -> Exec {
             want[m.to].push((m.id, m.from, k));
         }
         if !suffix {
-            let base = next_id - 4;
+            let base = next_id - if double { 5 } else { 4 };
             if from_host && ctl != 0 {
                 // sends of this step race with the host-code control action: don't-care
                 dontcare.push(base);
                 dontcare.push(base + 1);
+                if double {
+                    dontcare.push(base + 4);
+                }
             }
+            // queue order on the link = order of the sends within the step (A runs before B)
             link.send(base, 0, 1, k);
+            if double {
+                link.send(base + 4, 0, 1, k);
+            }
             link.send(base + 1, 1, 0, k);
             link_ac.send(base + 2, 0, 2, k);
             link_bc.send(base + 3, 1, 2, k);
@@ -411,8 +436,9 @@ pub fn c08_scenario(ch: &mut Chooser, thorough: bool) -> Exec {
         // ---- compare receive logs so far (ignoring don't-care ids)
         let g = net.st.borrow();
         for h in 0..3 {
-            let got: Vec<_> = g.recv[h].iter().filter(|r| !dontcare.contains(&r.0)).cloned().collect();
-            let wnt: Vec<_> = want[h].iter().filter(|r| !dontcare.contains(&r.0)).cloned().collect();
+            let open = |id: &u32| dontcare.contains(id) || anytime.iter().any(|a| a.0 == *id);
+            let got: Vec<_> = g.recv[h].iter().filter(|r| !open(&r.0)).cloned().collect();
+            let wnt: Vec<_> = want[h].iter().filter(|r| !open(&r.0)).cloned().collect();
             // per source order and timing
             for src in 0..3 {
                 let gs: Vec<_> = got.iter().filter(|r| r.1 == src).collect();
@@ -435,6 +461,20 @@ pub fn c08_scenario(ch: &mut Chooser, thorough: bool) -> Exec {
         if !g.send_errs.is_empty() {
             violation = Some(Violation::new("send-error", format!("{:?}", g.send_errs)));
         }
+        // per direction, datagrams arrive in the order they were sent (one fixed latency;
+        // holds delay, they do not reorder) unless the test delivered some by hand
+        if violation.is_none() && !feats.contains(&"manual-delivery") && !feats.contains(&"deliver-all") {
+            for (h, src) in [(1usize, 0usize), (0, 1), (2, 0), (2, 1)] {
+                let ids: Vec<u32> = g.recv[h].iter().filter(|r| r.1 == src).map(|r| r.0).collect();
+                if ids.windows(2).any(|w| w[0] > w[1]) {
+                    violation = Some(Violation::new(
+                        "order",
+                        format!("host {} received the datagrams of host {} in the order {:?}; they were sent in ascending order under one fixed latency (control from host code={from_host}, issued by {})", NAMES[h], NAMES[src], ids, NAMES[issuer]),
+                    ));
+                    break;
+                }
+            }
+        }
         // nothing lost or duplicated at the end (don't-care ids may be either)
         for h in 0..3 {
             let mut ids: Vec<u32> = g.recv[h].iter().map(|r| r.0).collect();
@@ -443,6 +483,12 @@ pub fn c08_scenario(ch: &mut Chooser, thorough: bool) -> Exec {
             ids.dedup();
             if ids.len() != n {
                 violation = Some(Violation::new("duplicate", format!("host {} received a datagram twice: {:?}", NAMES[h], g.recv[h])));
+            }
+        }
+        for (id, to) in &anytime {
+            let n = g.recv[*to].iter().filter(|r| r.0 == *id).count();
+            if n != 1 && violation.is_none() {
+                violation = Some(Violation::new("lost", format!("datagram {id} was held and then released from host code; host {} received it {n} times", NAMES[*to])));
             }
         }
         if !link.q.is_empty() || !link_bc.q.is_empty() {
